@@ -351,9 +351,9 @@ def run(ctx):
                     triples_checked += 1
                     if r1 == "1" and r2 == "1" and compat[(a, c)] != "1":
                         law_failures.append((i, "trans", (a, b, c)))
-    rc3, oout = ctx.run_sharded(drv, olines)
+    rc3, oout = ctx.run_sharded(drv, olines, timeout=1500)
     failures = []   # (case index, statement, query, answer, cex, in_domain)
-    values_enumerated = 0
+    outside_domain = 0
     for (i, ids, meta), o in zip(ometa, oout):
         po = parse_out(o)
         if not po or "o" not in po:
@@ -362,7 +362,9 @@ def run(ctx):
         res = po["o"]
         dom = {t: res[k] == "1" for k, t in enumerate(ids)}
         for (q, r, (a, b)), rr in zip(meta, res[len(ids):]):
-            if rr != "ok":
+            if rr == "nodom":
+                outside_domain += 1
+            elif rr != "ok":
                 failures.append((i, q[0], q, r, rr, dom.get(a, False) and dom.get(b, False)))
     # ------------------------------------------------------------------ classify and report
     in_dom = [f for f in failures if f[5]]
@@ -432,7 +434,7 @@ def run(ctx):
         "oracle_checks": sum(len(m[2]) for m in ometa), "oracle_failures_in_domain": by_kind,
         "oracle_failures_matching_known_findings": known_hits, "oracle_failures_unmatched": unmatched,
         "law_failures_transitivity": len(law_failures),
-        "oracle_failures_outside_domain": len(failures) - len(in_dom),
+        "oracle_failures_outside_domain": len(failures) - len(in_dom), "oracle_checks_skipped_outside_closedb": outside_domain,
         "traces_validated_against_impl": len(cases) - disagreements, "disagreements_checked": disagreements,
         "samples": [c[0] for c in cases[ncorpus:ncorpus + 3]] + [{"case": cases[-1][0], "impl": impl[-1], "model": model[-1]}],
         "model_variant": MODEL_CFG, "exhaustive": ctx.tier == "thorough",
